@@ -213,12 +213,137 @@ def nested_cases():
     ]
 
 
+def after_misuse_cases(out):
+    """misuse surfaces as AnnotationError — and afterwards violated annotations are still reported: each scenario in a fresh
+    thread (ill-typed calls before, one misuse that raises from inside a check, the same ill-typed calls after)"""
+    import threading
+
+    import typeguard
+    from impl_prog import Duck
+    from jaxtyping import Float, PyTree
+
+    @jaxtyped(typechecker=typeguard.typechecked)
+    def f(x: Float[Duck, "a"], y: Float[Duck, "a 3"]) -> Float[Duck, "a"]:
+        return x
+
+    @jaxtyped(typechecker=typeguard.typechecked)
+    def g(x: Float[Duck, "a"]) -> Float[Duck, "a a"]:
+        return x
+
+    def probes():
+        res = []
+        for fn, args in ((f, (Duck((2,), "float32"), Duck((5, 3), "float32"))), (f, (Duck((2,), "float32"), Duck((2, 3), "int32"))), (g, (Duck((2,), "float32"),))):
+            try:
+                fn(*args)
+                res.append("returned")
+            except jaxtyping.TypeCheckError as e:
+                res.append(impl_prog.parse_tce(e)[:2])
+            except BaseException as e:  # noqa: BLE001
+                res.append("raised " + type(e).__name__)
+        return res
+
+    misuses = {
+        "PyTree[Float] (a bare category as leaf type)": lambda: isinstance((Duck((2,), "float32"),), PyTree[Float]),
+        "isinstance(x, Float)": lambda: isinstance(Duck((2,), "float32"), Float),
+        "unbound symbolic name inside a PyTree": lambda: isinstance((Duck((2,), "float32"),), PyTree[Float[Duck, "zz+1"]]),
+        "'?' beneath two structured PyTrees": lambda: isinstance(((Duck((2,), "float32"),),), PyTree[PyTree[Float[Duck, "?q"], "S"], "T"]),
+    }
+    for name, misuse in misuses.items():
+        box = {}
+
+        def scenario():
+            box["before"] = probes()
+            try:
+                misuse()
+                box["misuse"] = "returned"
+            except jaxtyping.AnnotationError:
+                box["misuse"] = "AnnotationError"
+            except BaseException as e:  # noqa: BLE001
+                box["misuse"] = "raised " + type(e).__name__
+            box["after"] = probes()
+
+        t = threading.Thread(target=scenario)
+        t.start()
+        t.join(60)
+        out.case(("after-misuse", name), True, sample=dict(box, misuse_kind=name))
+        if box.get("misuse") != "AnnotationError":
+            out.violation("after-misuse:not-annotation-error", f"{name} ended as {box.get('misuse')}, must raise AnnotationError", {"after_misuse": name})
+        if box.get("before") != box.get("after") or "returned" in (box.get("after") or ["returned"]):
+            out.violation("after-misuse:errors-lost", f"after {name} the same ill-typed calls give {box.get('after')} (before: {box.get('before')}); each must raise "
+                          f"TypeCheckError as before", {"after_misuse": name})
+
+
+def overlapping_errors(out):
+    """the bindings an error lists are those of ITS call: another thread inside its own checked call at the same time
+    (other axis names, other sizes) contributes nothing. A enters its body, B enters its body, A returns an ill-typed value."""
+    import threading
+
+    import typeguard
+    from impl_prog import Duck
+
+    for remove_stack in (False, True):
+        jaxtyping.config.update("jaxtyping_remove_typechecker_stack", remove_stack)
+        try:
+            res = {}
+            in_a, go_a, in_b, go_b = threading.Event(), threading.Event(), threading.Event(), threading.Event()
+            bad = Duck((2, 9), "float32")
+
+            @jaxtyped(typechecker=typeguard.typechecked)
+            def fa(x: jaxtyping.Float[Duck, "a"]) -> jaxtyping.Float[Duck, "a"]:
+                in_a.set()
+                go_a.wait(30)
+                return bad
+
+            @jaxtyped(typechecker=typeguard.typechecked)
+            def fb(y: jaxtyping.Float[Duck, "b"]) -> jaxtyping.Float[Duck, "b"]:
+                in_b.set()
+                go_b.wait(30)
+                return y
+
+            def run_a():
+                try:
+                    fa(Duck((2,), "float32"))
+                    res["A"] = "returned"
+                except jaxtyping.TypeCheckError as e:
+                    res["A"] = impl_prog.parse_tce(e)
+                except BaseException as e:  # noqa: BLE001
+                    res["A"] = "raised " + type(e).__name__
+
+            def run_b():
+                try:
+                    fb(Duck((7,), "float32"))
+                    res["B"] = "returned"
+                except BaseException as e:  # noqa: BLE001
+                    res["B"] = "raised " + type(e).__name__
+
+            ta, tb = threading.Thread(target=run_a), threading.Thread(target=run_b)
+            ta.start()
+            in_a.wait(30)
+            tb.start()
+            in_b.wait(30)
+            go_a.set()
+            ta.join(30)
+            go_b.set()
+            tb.join(30)
+            want_a = ("tceReturn", None, {"single": [["a", 2]], "variadic": [], "struct": []})
+            got_a = res.get("A")
+            got_a = (got_a[0], got_a[1], got_a[2]) if isinstance(got_a, tuple) else got_a
+            out.case(("overlap", remove_stack), True, sample={"A": str(got_a), "B": res.get("B")})
+            if got_a != want_a or res.get("B") != "returned":
+                out.violation("overlap:bindings", f"thread A's ill-typed return (a=2 in force) while thread B is inside its own call (b=7): A got {got_a}, must be {want_a}; "
+                              f"B: {res.get('B')}, must return", {"overlap": remove_stack})
+        finally:
+            jaxtyping.config.update("jaxtyping_remove_typechecker_stack", False)
+
+
 def run(tier, seed, out, drv, facts):
     rng = Rng(seed, "C13")
     thorough = tier == "thorough"
     for call in annotation_error_cases():
         for ck in ("typeguard", "beartype"):
             run_call(out, drv, facts, call, ck, False, rng, "misuse")
+    overlapping_errors(out)
+    after_misuse_cases(out)
     for call in nested_cases():
         for rs in (False, True):
             run_call(out, drv, facts, call, "typeguard", rs, rng, "nested")
@@ -234,4 +359,10 @@ def run(tier, seed, out, drv, facts):
 
 
 def replay(rep, out, drv, facts):
+    if "overlap" in rep:
+        overlapping_errors(out)
+        return
+    if "after_misuse" in rep:
+        after_misuse_cases(out)
+        return
     run_call(out, drv, facts, rep["program"][0], rep.get("checker", "typeguard"), rep.get("remove_typechecker_stack", False), None, "replay")
